@@ -676,7 +676,7 @@ func (c *Ctx) numericGuards(v ssa.Value, at ssa.Instruction) (nonZero, nonNeg, b
 		if !ok {
 			continue
 		}
-		x, y, op := bo.X, bo.Y, bo.Op
+		x, y, op := g.operand(bo.X), g.operand(bo.Y), bo.Op
 		if _, isC := x.(*ssa.Const); isC {
 			x, y = y, x
 			if m, ok := mirrored[op]; ok {
